@@ -494,6 +494,14 @@ where
                 Execution::new(sched.clone(), schedule).run(
                     &config,
                     move || {
+                        // shuttle installs a verbose panic hook on its first execution; panics inside
+                        // executions are observations here, so put the quiet hook back once
+                        static QUIET: std::sync::Once = std::sync::Once::new();
+                        QUIET.call_once(|| {
+                            if std::env::var_os("VERIF_PANIC_TRACE").is_none() {
+                                std::panic::set_hook(Box::new(|_| {}));
+                            }
+                        });
                         ctl::set_fine(fine);
                         ctl::set_in_execution(true);
                         body();
